@@ -41,7 +41,16 @@ package txnprocessor
 //@     invariant puts == old(puts) && provFailed == old(provFailed) && len(ops) <= _k && opsNonNil(txnOps)
 //@     invariant forall a int :: 0 <= a && a < len(ops) ==> ops[a] != nil && stamped(ops[a], sidetreeTxn) && ops[a].UniqueSuffix in batchSuffixes
 //@     invariant forall a int, b int :: 0 <= a && a < b && b < len(ops) ==> ops[a].UniqueSuffix != ops[b].UniqueSuffix
+//     what is stored is the first-occurrence subsequence of the transaction's operations: every suffix is represented,
+//     by its first operation, in transaction order
+//@     invariant forall q int :: 0 <= q && q < _k ==> txnOps[q].UniqueSuffix in batchSuffixes
+//@     invariant forall s string :: s in batchSuffixes ==> (exists a int :: 0 <= a && a < len(ops) && ops[a].UniqueSuffix == s)
+//@     invariant forall a int :: 0 <= a && a < len(ops) ==> 0 <= src(ops, a) && src(ops, a) < _k && ops[a] == txnOps[src(ops, a)] && (forall j int :: 0 <= j && j < src(ops, a) ==> txnOps[j].UniqueSuffix != ops[a].UniqueSuffix)
+//@     invariant forall a int, b int :: 0 <= a && a < b && b < len(ops) ==> src(ops, a) < src(ops, b)
 //@   ensures puts == old(puts) + 1
+//@   ensures forall q int :: 0 <= q && q < len(txnOps) ==> (exists a int :: 0 <= a && a < len(lastPut) && lastPut[a].UniqueSuffix == txnOps[q].UniqueSuffix)
+//@   ensures forall a int :: 0 <= a && a < len(lastPut) ==> 0 <= src(ops, a) && src(ops, a) < len(txnOps) && lastPut[a] == txnOps[src(ops, a)] && (forall j int :: 0 <= j && j < src(ops, a) ==> txnOps[j].UniqueSuffix != lastPut[a].UniqueSuffix)
+//@   ensures forall a int, b int :: 0 <= a && a < b && b < len(lastPut) ==> src(ops, a) < src(ops, b)
 //@   ensures forall a int :: 0 <= a && a < len(lastPut) ==> lastPut[a] != nil && stamped(lastPut[a], sidetreeTxn)
 //@   ensures forall a int, b int :: 0 <= a && a < b && b < len(lastPut) ==> lastPut[a].UniqueSuffix != lastPut[b].UniqueSuffix
 //@   ensures err != nil ==> r0 == 0
@@ -53,4 +62,5 @@ package txnprocessor
 //@   requires p != nil && p.Providers != nil && p.OpStore != nil && p.unpublishedOperationStore != nil && p.OperationProtocolProvider != nil
 //@   ensures provFailed ==> puts == old(puts) && err != nil && r0 == 0
 //@   ensures puts <= old(puts) + 1
+//@   ensures !provFailed ==> puts == old(puts) + 1
 //@   modifies *
